@@ -13,7 +13,7 @@ uses are required as type-class arguments).  The driver executes them at `Rat` (
 `Float` (RDP, log-cosh, PLS, default weights: `sqrt/log/cosh/tanh`); `Proofs*.lean` instantiates the same
 text at an ordered field / at `ℝ`.
 
-The model describes the code AFTER the repairs build/fixes/C09-1..3 (line numbers refer to the repaired files):
+The model describes the code AFTER the repairs docs/fixes/C09-1..3 (line numbers refer to the repaired files):
 PLS gradient with per-direction border handling and kappa inside the divergence; Hessian functions of the three neighbourhood
 priors skip the centre offset.  Asymmetric user weights are modelled as the code treats them (known finding).
 
